@@ -832,6 +832,20 @@ def token_bytes(world, pool, tier, rng, provider="openssl"):
                         tok = msg + b"." + K.b64u(raw).encode()
                         metas.append((len(world.ops), {"kind": "verify", "cfg": kname + "/" + alg + " under " + provider, "len": len(tok), "wellformed": True, "may_accept": False}))
                         world.op("ck %d verify %s" % (ci, hx(tok)), tag="verify")
+        # a key the provider cannot load at all (GnuTLS knows no secp256k1) held as a PRIVATE key and named for an algorithm of its
+        # size: every verify fails inside the provider's key import -- and gives back what it took (LeakSanitizer at exit)
+        k256 = pool.keys.get("k256") or pool.rare.get("k256")
+        if k256 is not None:
+            for pi_, private in enumerate((True, False)):
+                it = world.add_key(790 + pi_, k256, private=private, alg_attr=None)
+                world.op("ck 60 new", tag="cfg")
+                world.op("ck 60 setkey %d %d %d" % ((K.ALG_ORD["ES256"],) + it), tag="cfg")
+                msg = seg({"alg": "ES256"}) + b".e30"
+                for n in (0, 63, 64, 65, 96):
+                    tok = msg + b"." + K.b64u(bytes(rng.randrange(256) for _ in range(n))).encode()
+                    metas.append((len(world.ops), {"kind": "verify", "cfg": "k256 %s/ES256 under %s" % ("private" if private else "public", provider), "len": len(tok),
+                                                   "wellformed": True, "may_accept": False}))
+                    world.op("ck 60 verify %s" % hx(tok), tag="verify")
         world.op("prov name " + hx(b"openssl"), tag="cfg")
         return metas
     cfgs = [("nokey", None)] + [(n, n) for n in pool.keys] + [("nokey+claims", None), ("oct32+claims", "oct32"),
